@@ -219,7 +219,7 @@ Section Recall.
   Qed.
   Lemma kh_complete_line fuel : keeps_hist (complete_line U cfg fuel).
   Proof.
-    unfold complete_line. kh_display.
+    unfold complete_line, list_span_step. kh_display.
     kh_auto; try apply kh_complete_circular; try apply kh_next_cmd; try apply kh_wait_yn; try apply kh_page;
       try apply kh_lb_changes; try apply kh_lb_quiet; try apply kh_move_cursor; try apply kh_refresh_line.
   Qed.
